@@ -452,7 +452,7 @@ class Run:
 
 
 # loops of harness/libc_models.c: word loops up to 40 words, byte loops up to 72 bytes (checked by unwinding assertions)
-LIBC_UNWIND = {'kit_ctx_full.0': 64, 'memmove.0': 41, 'memmove.1': 41, 'memmove.2': 73, 'memmove.3': 73, 'memcpy.0': 41, 'memcpy.1': 73,
+LIBC_UNWIND = {'kit_ctx_full.0': 64, 'kit_any_bytes.0': 41, 'kit_vector.0': 50, 'memmove.0': 41, 'memmove.1': 41, 'memmove.2': 73, 'memmove.3': 73, 'memcpy.0': 41, 'memcpy.1': 73,
                'memset.0': 41, 'memset.1': 73}
 SIGN_RE = re.compile(r'\(sexp_sint_t\) ?([A-Za-z_][A-Za-z_0-9]*) < 0')
 RESIDUAL_RE = re.compile(r'\(sexp_sint_t\) ?\(?[A-Za-z_][A-Za-z_0-9]*\)? *(<|<=|>|>=) *0(?![0-9x.])')
